@@ -236,6 +236,36 @@ def run_case(rng, acc):
     acc.obs('realise-failed:' + type(e).__name__)
     return
   check_initial_tags(root, memo0, acc, witness)
+  if rng.random() < 0.3:
+    # other readers of the annotations (type validation, the public type-hint helper) run in
+    # between: configurations created AFTERWARDS still carry their annotation tags
+    from fiddle._src import signatures as fsig
+    from fiddle._src.validation import check_types
+    for fn_ in rng.sample(FNS, 4):
+      try:
+        fsig.get_type_hints(fn_)
+      except Exception:  # pylint: disable=broad-except
+        pass
+    try:
+      check_types.get_type_errors(cfg)
+    except Exception:  # pylint: disable=broad-except
+      pass
+    memo1 = {}
+    gen.to_fiddle(root, memo1)
+    acc.obs('initial_tags_checked_after_type_hint_readers')
+    check_initial_tags(root, memo1, acc, witness)
+  if rng.random() < 0.3:
+    # update_callable to a callable that takes the tagged argument only through **kwargs: the
+    # argument stays, so do its tags
+    T_ = rng.choice(vtags.ALL)
+    c_ = fdl.Config(kinds.two, x=Sentinel(7), y=2)
+    fdl.add_tag(c_, 'x', T_)
+    fdl.update_callable(c_, rng.choice([kinds.node, kinds.target3]))
+    acc.obs('update_callable_to_kwargs_callable')
+    if c_.__arguments__.get('x') is None or frozenset(fdl.get_tags(c_, 'x')) != frozenset({T_}):
+      acc.violation('tags-lost-or-changed:update_callable:argument-kept-through-kwargs',
+                    f'after update_callable the argument x is {c_.__arguments__.get("x")!r} with tags '
+                    f'{sorted(t.__name__ for t in fdl.get_tags(c_, "x"))}', witness())
   # (c) list_tags
   for sup in (False, True):
     try:
